@@ -17,6 +17,7 @@ import (
 )
 
 type monitor struct {
+	events  int // observations made (a monitor that matches no function of the code under test is blind)
 	onEnter    func(fr *frame, fn *ssa.Function, args []value)
 	onExit     func(fr *frame, fn *ssa.Function)
 	onStore    func(fr *frame, addr *value)
@@ -168,6 +169,7 @@ func (m *Machine) resetPath() {
 	i.stubs = nil
 	i.monitor = nil
 	i.panicOrigin = nil
+	i.osOut = ""
 	for _, g := range m.utGlobal {
 		*i.globals[g] = zero(mustDeref(g.Type()))
 	}
@@ -230,6 +232,13 @@ func (m *Machine) RunJob(fn *ssa.Function, arg int, res *JobResult) {
 				outcome = "panic"
 			case runtime.Error:
 				msg := "uncaught runtime panic: " + p.Error()
+				if o := m.i.panicOrigin; o != nil && isHarnessFunc(o) {
+					// a run-time error of the harness or of the reference interpreter is a defect of the
+					// machinery, not a property of the code under test: never a counterexample
+					ex.inconclusive("run-time error inside harness code (" + o.String() + "): " + p.Error())
+					outcome = "inconclusive"
+					return
+				}
 				if strings.Contains(p.Error(), "interp.") || os.Getenv("GOSYM_DEBUG") != "" {
 					buf := make([]byte, 8192)
 					buf = buf[:runtime.Stack(buf, false)]
@@ -241,6 +250,11 @@ func (m *Machine) RunJob(fn *ssa.Function, arg int, res *JobResult) {
 				outcome = "panic"
 			case string:
 				msg := "uncaught runtime panic: " + p
+				if o := m.i.panicOrigin; o != nil && isHarnessFunc(o) {
+					ex.inconclusive("run-time error inside harness code (" + o.String() + "): " + p)
+					outcome = "inconclusive"
+					return
+				}
 				if !ex.replaying() {
 					ex.addCex(msg, ex.model())
 				}
@@ -269,6 +283,28 @@ func (m *Machine) RunJob(fn *ssa.Function, arg int, res *JobResult) {
 	})
 	res.Queries = ex.S.Queries - q0
 	res.SolverS = (ex.S.Time - t0).Seconds()
+}
+
+// isHarnessFunc: the function belongs to a harness file (shim, harness, oracle
+// data) or to the reference interpreter.
+func isHarnessFunc(fn *ssa.Function) bool {
+	for f := fn; f != nil; f = f.Parent() {
+		fn = f
+	}
+	if fn.Pkg != nil {
+		pp := fn.Pkg.Pkg.Path()
+		if pp == "vh/ref" || strings.HasSuffix(pp, "/hx") {
+			return true
+		}
+	}
+	if fn.Prog == nil || !fn.Pos().IsValid() {
+		return false
+	}
+	name := fn.Prog.Fset.Position(fn.Pos()).Filename
+	if k := strings.LastIndexByte(name, '/'); k >= 0 {
+		name = name[k+1:]
+	}
+	return strings.HasPrefix(name, "zz_") || name == "h.go" || name == "lemmas.go" || name == "refg.go"
 }
 
 func firstLine(s string) string {
@@ -368,6 +404,16 @@ func init() {
 		"symFreshProcess": func(fr *frame, args []value) value {
 			fr.i.fresh()
 			return nil
+		},
+		"symOSOutput": func(fr *frame, args []value) value {
+			// everything fmt.Fprint* wrote to an *os.File on this path
+			return fr.i.osOut
+		},
+		"symMonitorEvents": func(fr *frame, args []value) value {
+			if fr.i.monitor == nil {
+				return 0
+			}
+			return fr.i.monitor.events
 		},
 		"symMode": func(fr *frame, args []value) value {
 			return "both"
@@ -613,6 +659,7 @@ func installMonitor(i *interpreter, kind string) {
 				pos := pt[0].(structure)
 				off := asInt64raw(pos[2])
 				k := key{args[1].(*value), off}
+				fr.i.monitor.events++
 				if active[k] > 0 {
 					name := ""
 					if r, ok := (*k.rule).(structure); ok && len(r) > 1 {
@@ -660,6 +707,7 @@ func installMonitor(i *interpreter, kind string) {
 					return
 				}
 				k := key{e.v, off}
+				fr.i.monitor.events++
 				seen[k]++
 				if seen[k] > 1 {
 					fr.i.ex.addCex(fmt.Sprintf("C06: an expression (%s) is evaluated a second time at offset %d although Memoize is on", e.t, off), fr.i.ex.model())
